@@ -39,6 +39,23 @@ package capella
 //@   assigns anything
 //@   ensures err == nil ==> post != nil
 
+// the state's latest execution payload header (assumed view models, snapshot semantics; C03)
+//@ sort StateX_capella = ExecutionTrackingBeaconState
+//@ sort HdrViewP_capella = *ExecutionPayloadHeaderView
+//@ sort HdrP_capella = *ExecutionPayloadHeader
+//@ ufun st_exhdr_err_capella(StateX_capella) bool
+//@ ufun st_exhdr_capella(StateX_capella) HdrViewP_capella
+//@ ufun exhdr_raw_err_capella(HdrViewP_capella) bool
+//@ ufun exhdr_raw_capella(HdrViewP_capella) HdrP_capella
+//@ func (s ExecutionTrackingBeaconState) LatestExecutionPayloadHeader() (r, err)
+//@   trusted
+//@   ensures (err != nil) == st_exhdr_err_capella(s)
+//@   ensures err == nil ==> r != nil && r == st_exhdr_capella(s)
+//@ func (v *ExecutionPayloadHeaderView) Raw() (r, err)
+//@   trusted
+//@   ensures (err != nil) == exhdr_raw_err_capella(v)
+//@   ensures err == nil ==> r != nil && r == exhdr_raw_capella(v)
+
 // BEGIN C18 generated (tools/gen_c18.py in /verif)
 // cancelled: a context cancelled before the call makes it fail; surfaced: a cancellation observed by a poll
 // during the call makes it fail; polled: success after a poll means the context was not cancelled at entry.
@@ -90,7 +107,7 @@ package capella
 //@   ensures asked_once: n_eng_notify <= old(n_eng_notify) + 1
 
 //@ func ProcessExecutionPayload(ctx, spec, state, executionPayload, engine) err
-//@   property C18
+//@   property C18 C03
 //@   panics off
 //@   requires ctx != nil
 //@   opt weakcalls
@@ -107,6 +124,9 @@ package capella
 //@   ensures approved: err == nil ==> !eng_hash_err_capella(engine, old(*executionPayload)) && eng_hash_ok_capella(engine, old(*executionPayload)) && !eng_notify_err_capella(engine, old(*executionPayload)) && eng_notify_valid_capella(engine, old(*executionPayload)) && n_eng_notify == old(n_eng_notify) + 1
 //@   ensures header_after_approval: n_set_exec_header > old(n_set_exec_header) ==> n_set_exec_header == old(n_set_exec_header) + 1 && eng_hash_ok_capella(engine, old(*executionPayload)) && eng_notify_valid_capella(engine, old(*executionPayload)) && !eng_hash_err_capella(engine, old(*executionPayload)) && !eng_notify_err_capella(engine, old(*executionPayload))
 //@   ensures header_on_success: err == nil ==> n_set_exec_header == old(n_set_exec_header) + 1
+//@   ensures c03_randao: spec != nil && spec.SLOTS_PER_EPOCH != 0 && err == nil ==> !st_slot_err(state) && !st_mixes_err(state) && old(executionPayload.PrevRandao) == mix_at(st_mixes(state), st_slot(state) / spec.SLOTS_PER_EPOCH)
+//@   ensures c03_timestamp: spec != nil && spec.SECONDS_PER_SLOT != 0 && err == nil ==> !st_gentime_err(state) && old(executionPayload.Timestamp) == st_slot(state) * spec.SECONDS_PER_SLOT + st_gentime(state)
+//@   ensures c03_parent: err == nil ==> !st_exhdr_err_capella(state) && !exhdr_raw_err_capella(st_exhdr_capella(state)) && old(executionPayload.ParentHash) == old(exhdr_raw_capella(st_exhdr_capella(state)).BlockHash)
 
 //@ func (state *BeaconStateView) ProcessEpoch(ctx, spec, epc) err
 //@   property C18
